@@ -228,3 +228,24 @@ Section Wsh.
       apply (fill_all_small e0 ke A se f 80 HL HA Hsm ltac:(lia) l bs Hsat).
   Qed.
 End Wsh.
+
+(* ------------------------------------------------------------------ witnesses over a world *)
+(* the asset record's material lies in the world *)
+Definition material_in (W : wit) (A : assets) : Prop :=
+  (forall k s, a_sig A k = Some s -> In s W) /\
+  (forall h x, a_sha256 A h = Some x -> In x W) /\ (forall h x, a_hash256 A h = Some x -> In x W) /\
+  (forall h x, a_ripemd160 A h = Some x -> In x W) /\ (forall h x, a_hash160 A h = Some x -> In x W).
+
+(* what the satisfier model returns is built from the world's material *)
+Lemma satisfy_over_world (e : env) (ke : keyenv) (W : wit) (A : assets) (se : senv) (f : fill) :
+  linked ke A se f -> (forall ks, length (ksort ke ks) = length ks) -> material_in W A ->
+  forall mall rhs m bs, wf e ke m -> pub_in ke m W ->
+    satisfy ke se f mall rhs m = Some bs -> incl bs W.
+Proof.
+  intros HL Hlen (M1 & M2 & M3 & M4 & M5) mall rhs m bs Hwf [P0 [P1 [Pz Pk]]] Hsat. unfold satisfy in Hsat.
+  destruct (s_stack (snd (sat_dissat ke se mall rhs m))) as [l| |] eqn:Es; try discriminate.
+  destruct (sat_in_table ke A se f HL Hlen mall rhs m (wf_kwf e ke m Hwf)) as [_ Hs].
+  pose proof (Hs l bs Es Hsat) as Hin.
+  pose proof (proj1 (table_material ke W A M1 M2 M3 M4 M5 P0 P1 Pz m Pk)) as Hall.
+  intros x Hx. apply (Hall _ Hin). apply in_rev in Hx. exact Hx.
+Qed.
